@@ -437,8 +437,8 @@ def has_dead_deterministic_branch(segs, data, defects=()):
             step = Q.collector_span(segs, i) if segs[i][0] == "coll" and segs[i][1] == "" else 1
             nxt = []
             for r in cur:
-                if r.node is None and not r.virtual:
-                    continue
+                # a null met before the last segment is a scalar in the way like any other (since fix 0311c15
+                # optional mode no longer relays it): a deterministic segment below it is a missing branch
                 sel = Q._probe(segs, i, r, True, ctx)
                 if not sel and segs[i][0] in _DETERMINISTIC:
                     return True
